@@ -413,14 +413,23 @@ ADVERSARIAL = [
 ]
 
 
+ADV_NOT_COMPILED = []
+
+
 def adversarial_objects():
     out = []
+    del ADV_NOT_COMPILED[:]
     for label, src in ADVERSARIAL:
         if src is None:
             continue
+        head = ''
+        if src.startswith('from __future__'):
+            head, src = src.split('\n', 1)
+            head += '\n'
         try:
-            g = sigs.compile_module(ADV_PRELUDE + src, tag='vadv')
+            g = sigs.compile_module(head + ADV_PRELUDE + src, tag='vadv')
         except SyntaxError:
+            ADV_NOT_COMPILED.append(label)
             continue
         for name in ('f', 'f2', 'f3', 'f4', 'f5', 'g'):
             if name in g and callable(g[name]) or name in g and isinstance(g[name], (staticmethod, classmethod)):
@@ -439,7 +448,10 @@ def adversarial_objects():
 
 
 def run_adversarial(ctx):
-    for label, obj in adversarial_objects():
+    objs = adversarial_objects()
+    if ADV_NOT_COMPILED:
+        ctx.inconclusive.append('adversarial sources that do not compile: %s' % ', '.join(ADV_NOT_COMPILED))
+    for label, obj in objs:
         ctx.count('C07.adversarial_objects')
         try:
             check_callable(ctx, label, 'function', obj, sphinx=False, rp=dict(workload='adversarial', label=label))
